@@ -221,6 +221,9 @@ impl TransportReceiverT for MockReceiver {
 	}
 }
 
+/// the request timeout every mock client is configured with (real time: never reached within a case)
+pub const REQUEST_TIMEOUT: std::time::Duration = std::time::Duration::from_secs(77);
+
 pub struct MockClient {
 	pub client: Arc<Client>,
 	pub shared: Arc<Shared>,
@@ -292,7 +295,7 @@ impl MockClient {
 		let (mcr, sbuf) = (cfg.max_concurrent_requests, cfg.sub_buffer.max(1));
 		let client = if cfg.ws_builder {
 			type WB = jsonrpsee_ws_client::WsClientBuilder;
-			let mut setters: Vec<Box<dyn FnOnce(WB) -> WB>> = vec![Box::new(move |b: WB| b.id_format(id_kind)), Box::new(move |b: WB| b.max_concurrent_requests(mcr)), Box::new(move |b: WB| b.max_buffer_capacity_per_subscription(sbuf))];
+			let mut setters: Vec<Box<dyn FnOnce(WB) -> WB>> = vec![Box::new(move |b: WB| b.id_format(id_kind)), Box::new(move |b: WB| b.max_concurrent_requests(mcr)), Box::new(move |b: WB| b.max_buffer_capacity_per_subscription(sbuf)), Box::new(move |b: WB| b.request_timeout(REQUEST_TIMEOUT)), Box::new(move |b: WB| b.connection_timeout(std::time::Duration::from_secs(33)))];
 			if cfg.ping {
 				setters.push(Box::new(move |b: WB| b.enable_ws_ping(ping_cfg)));
 			}
@@ -304,7 +307,7 @@ impl MockClient {
 			if cfg.mw_last { builder.set_rpc_middleware(jsonrpsee_core::middleware::RpcServiceBuilder::new().rpc_logger(1024)).build_with_transport(sender, receiver) } else { builder.build_with_transport(sender, receiver) }
 		} else {
 			type CB = ClientBuilder;
-			let mut setters: Vec<Box<dyn FnOnce(CB) -> CB>> = vec![Box::new(move |b: CB| b.id_format(id_kind)), Box::new(move |b: CB| b.max_concurrent_requests(mcr)), Box::new(move |b: CB| b.max_buffer_capacity_per_subscription(sbuf))];
+			let mut setters: Vec<Box<dyn FnOnce(CB) -> CB>> = vec![Box::new(move |b: CB| b.id_format(id_kind)), Box::new(move |b: CB| b.max_concurrent_requests(mcr)), Box::new(move |b: CB| b.max_buffer_capacity_per_subscription(sbuf)), Box::new(move |b: CB| b.request_timeout(REQUEST_TIMEOUT))];
 			if cfg.ping {
 				setters.push(Box::new(move |b: CB| b.enable_ws_ping(ping_cfg)));
 			}
